@@ -1,4 +1,6 @@
 import FastraceModel.Model.Report.Jaeger
+import FastraceModel.Model.Report.Datadog
+import FastraceModel.Model.Report.Otel
 import FastraceModel.Driver.Util
 namespace Fastrace.Driver
 open Fastrace
@@ -46,6 +48,24 @@ def reportStep (line : String) : String :=
       let dgs := Jaeger.datagrams svc rs
       "dg" ++ String.join (dgs.map fun d => " " ++ hexOfNats d)
     | _, _ => "bad-op"
+  | ["datadog", svc, res, ty, recs] =>
+    match strOfHex svc, strOfHex res, strOfHex ty, parseRecords recs with
+    | some svc, some res, some ty, some rs =>
+      if rs.isEmpty then "dd none" else
+      "dd " ++ hexOfNats (Datadog.encodeBody ⟨svc, res, ty⟩ rs)
+    | _, _, _, _ => "bad-op"
+  | ["otel", recs] =>
+    match parseRecords recs with
+    | some rs =>
+      let tm (t : Otel.Time) : String := s!"{hexOfNat t.secs}.{hexOfNat t.nanos}"
+      let kvs (p : Props) : String :=
+        if p.isEmpty then "_" else "&".intercalate (p.map fun kv => s!"{hexOfStr kv.1}={hexOfStr kv.2}")
+      "otel" ++ String.join (rs.map fun r =>
+        let d := Otel.convert r
+        let evs := if d.events.isEmpty then "_" else
+          "|".intercalate (d.events.map fun e => s!"{hexOfStr e.name}@{tm e.time}@{kvs e.attrs}")
+        s!" {hexOfNats d.traceId},{hexOfNats d.spanId},{hexOfNats d.parentId},{tm d.start},{tm d.finish},{hexOfStr d.name},{kvs d.attrs},{evs}")
+    | none => "bad-op"
   | _ => "bad-op"
 
 end Fastrace.Driver
